@@ -894,6 +894,8 @@ func Generate(pf *Profile, seed uint64) *Plan {
 			if r.Chance(0.1) {
 				sel.SubsetSeed = 0
 				sel.All = true
+			} else if pf.EnumFlush && r.Chance(0.5) {
+				sel.Enumerate = true
 			}
 			p.Images = append(p.Images, sel)
 		}
